@@ -11,6 +11,7 @@ Not modelled (observed by the harness, see conf/C03.json): kernel buffering, the
 `pkt.SetEndpoint(t)` binds an inbound packet to its connection.
 -/
 import Fatchoy.Lemmas.ConnSteps
+import Fatchoy.Lemmas.ConnStart
 namespace Fatchoy.Conn
 
 /-- the regenerated state constants satisfy the side-condition of the four-valued abstraction -/
@@ -168,3 +169,119 @@ example : ∃ s, run exCfg (init exCfg) exBacklog = some s ∧
   refine ⟨_, rfl, ⟨⟨true, .returned true⟩, ?_, rfl, rfl⟩, ?_, ?_, ?_, ?_⟩ <;> decide
 
 end Fatchoy.Conn
+
+/-! ## Start-up (`TcpConn.Go`) and the wait group: the separate small LTS `Model/ConnStart.lean`
+
+The LTS above treats `Go` as one atomic action that leaves both pumps running and registered.  The theorems below
+are about the LTS that opens `Go` up (one action = one of: the CAS, `wg.Add(1)`, the `go` statement, the first
+statement of a pump, …, `wg.Done()`, and the steps of Close/finally), for the order of the code
+(`cfg.addInside = false`: the counter is incremented by `Go` BEFORE the `go` statement — regenerated fact
+`Gen.C03.goAddBeforeSpawn`), for every schedule, both flags, every queue capacity.  `addInside = true` is the
+order of the seeded change C03-w5v1, for which `C03_startup_add_inside_breaks` exhibits the failure. -/
+namespace Fatchoy.ConnStart
+
+/-- the regenerated fact: in `Go` every `go t.xPump()` directly follows `t.wg.Add(1)`, the pumps never increment
+  the counter and each calls `wg.Done()` once, deferred — the order the theorems below assume (`addInside = false`) -/
+theorem C03_startup_valid : Gen.C03.goAddBeforeSpawn = true := by decide
+
+/-- the configuration of the code: `addInside` is the negation of the regenerated fact -/
+def codeCfg (cap : Nat) : Cfg := ⟨!Gen.C03.goAddBeforeSpawn, cap⟩
+
+/-- the wait-group counter is never negative (no "sync: negative WaitGroup counter" panic); it counts exactly the
+  pump goroutines between their registration and their `wg.Done()` -/
+theorem C03_startup_wg_nonneg (cfg : Cfg) (hc : cfg.addInside = false) {s : State} (h : Reachable cfg s) :
+    0 ≤ s.wg ∧ s.wg = s.wPc.live + s.rPc.live + s.goPc.pendW + s.goPc.pendR := by
+  have hi := inv_reachable hc h
+  refine ⟨?_, hi.count⟩
+  rw [hi.count]
+  simp only [PumpPc.live, GoPc.pendW, GoPc.pendR]
+  repeat' split
+  all_goals omega
+
+/-- once `wg.Wait()` of `finally` has returned, every pump that `Go` was asked to start has been spawned and has
+  exited, and the others were never spawned -/
+theorem C03_startup_wait_all_exited (cfg : Cfg) (hc : cfg.addInside = false) {s : State} (h : Reachable cfg s)
+    (hw : waitReturned s) :
+    s.goPc = .returned ∧
+    (s.wPc = if s.wFlag then .exited else .notSpawned) ∧ (s.rPc = if s.rFlag then .exited else .notSpawned) := by
+  have hi := inv_reachable hc h
+  have hg : s.goPc = .returned := hi.closerGo (by simp only [waitReturned] at hw; grind)
+  have h1 := hi.selW (.inr (.inr hg))
+  have h2 := hi.selR hg
+  have h3 := hi.waitW hw
+  have h4 := hi.waitR hw
+  refine ⟨hg, ?_, ?_⟩
+  · cases hf : s.wFlag <;> grind
+  · cases hf : s.rFlag <;> grind
+
+/-- every accepted packet is on the wire or still in the queue, in order — in every reachable state -/
+theorem C03_startup_fifo (cfg : Cfg) (hc : cfg.addInside = false) {s : State} (h : Reachable cfg s) :
+    s.accepted = s.wire ++ s.queue :=
+  (inv_reachable hc h).fifo
+
+/-- Close returns only after every accepted packet was flushed: when `wg.Wait()` has returned (a fortiori when
+  Close has returned) and the writer was selected, the wire carries exactly the accepted packets, in order -/
+theorem C03_startup_close_flushes (cfg : Cfg) (hc : cfg.addInside = false) {s : State} (h : Reachable cfg s)
+    (hw : waitReturned s) (hf : s.wFlag = true) : s.wire = s.accepted ∧ s.queue = [] := by
+  have hi := inv_reachable hc h
+  have hx := (C03_startup_wait_all_exited cfg hc h hw).2.1
+  rw [hf] at hx
+  have hq := hi.wEmpty (.inr hx)
+  refine ⟨?_, hq⟩
+  rw [hi.fifo, hq, List.append_nil]
+
+/-- no packet is accepted after the state flip: an enabled `send` means Close has not passed `beginShutdown` -/
+theorem C03_startup_no_accept_after_flip (cfg : Cfg) (hc : cfg.addInside = false) {s s' : State}
+    (h : Reachable cfg s) (p : Nat) (hs : step cfg s (.send p) = some s') : s.closer = .idle := by
+  have hi := inv_reachable hc h
+  simp only [step] at hs
+  split at hs
+  · next hg => exact hi.stRun hg.1
+  · cases hs
+
+/-- without a writer nothing ever reaches the wire -/
+theorem C03_startup_no_writer (cfg : Cfg) (hc : cfg.addInside = false) {s : State} (h : Reachable cfg s)
+    (hg : s.goPc = .returned) (hf : s.wFlag = false) : s.wPc = .notSpawned :=
+  ((inv_reachable hc h).selW (.inr (.inr hg))).2 hf
+
+/-! ### non-vacuity and the negative control -/
+
+/-- Go(writer+reader), two packets accepted, Close issued BEFORE either pump ran its first statement -/
+def exEarlyClose : List Action :=
+  [.goCall true true, .goAddW, .goSpawnW, .goAddR, .goSpawnR, .send 7, .send 8,
+   .closeFlip, .closeDone,
+   .wStart, .wSeeDone, .wFlush, .rStart, .wFlush, .wFlushEnd, .rSeeDone, .wWgDone, .rWgDone,
+   .closeWait, .closeShutW, .closeQueue, .closeReturn]
+
+/-- with the order of the code the schedule runs to the end: Close returns with both packets on the wire (the
+  hypotheses of `C03_startup_close_flushes` / `_wait_all_exited` are satisfiable by a non-trivial state) -/
+example : ∃ s, run (codeCfg 4) init exEarlyClose = some s ∧ s.closer = .returned ∧ waitReturned s ∧
+    s.wFlag = true ∧ s.wire = [7, 8] ∧ s.accepted = [7, 8] ∧ s.wg = 0 ∧ s.wPc = .exited ∧ s.rPc = .exited :=
+  ⟨_, rfl, by decide⟩
+
+/-- `C03_startup_wg_nonneg` at a state where the counter is 2 and one pump is registered but not yet spawned -/
+example : ∃ s, run (codeCfg 4) init [.goCall true true, .goAddW, .goSpawnW, .wStart, .goAddR] = some s ∧
+    s.wg = 2 ∧ s.rPc = .notSpawned ∧ s.goPc.pendR = 1 := ⟨_, rfl, by decide⟩
+
+/-- `C03_startup_no_accept_after_flip`, `C03_startup_no_writer`: a send is enabled before the flip; reader only -/
+example : ∃ s s', run (codeCfg 4) init [.goCall false true, .goSkipW, .goAddR, .goSpawnR] = some s ∧
+    step (codeCfg 4) s (.send 5) = some s' ∧ s.goPc = .returned ∧ s.wFlag = false ∧ s'.accepted = [5] :=
+  ⟨_, _, rfl, rfl, by decide⟩
+
+/-- the schedule of the seeded change C03-w5v1: the pumps are spawned unregistered, Close runs to completion
+  before either of them executes its first statement (`wg.Wait()` sees the counter at zero) -/
+def exAddInside : List Action :=
+  [.goCall true true, .goSpawnW, .goSpawnR, .send 7, .send 8,
+   .closeFlip, .closeDone, .closeWait, .closeShutW, .closeQueue, .closeReturn]
+
+/-- NEGATIVE CONTROL: with the counter incremented by the pump goroutine itself (`addInside = true`) there is a
+  reachable state in which Close has returned, the writer was selected, and accepted packets are not on the wire -/
+theorem C03_startup_add_inside_breaks :
+    ∃ s, Reachable ⟨true, 4⟩ s ∧ s.closer = .returned ∧ s.wFlag = true ∧ s.accepted = [7, 8] ∧ s.wire = [] :=
+  ⟨_, ⟨exAddInside, rfl⟩, by decide⟩
+
+/-- the same schedule is NOT executable with the order of the code (the `go` statement needs the preceding Add,
+  and then `wg.Wait()` does not return) -/
+example : run (codeCfg 4) init exAddInside = none := by decide
+
+end Fatchoy.ConnStart
